@@ -40,7 +40,25 @@ Singles ==
 Pairs ==
     {Case(b, op, i, j, op2, i2, "empty", "same", TRUE) :
         b \in Bases, op \in (Ops1 \cup Ops2) \ {"none"}, i \in 0..5, j \in {0, 2, 4}, op2 \in Ops1 \ {"none"}, i2 \in 0..5}
-Cases == IF Tier = "quick" THEN Singles ELSE Singles \cup Pairs
+\* C01: structural attacks on everything no signature covers (sizes, positions, generations, lore, store
+\* entries referenced from the trace, raw values of the attacker's own results, state kinds), single and paired
+CrashOps == {"par_sizes", "par_both", "generation", "ap_gens_shape", "lore", "drop_store_entry", "raw_not_json", "kind_swap",
+             "truncate", "duplicate_state", "lcid", "to_sent", "to_failed", "to_stream", "copy_over", "relocate"}
+CrashBases == {"SM1", "SM2", "SM3", "SM4"}
+CrashSingles ==
+    {Case(b, op, i, j, "none", 0, pv, "same", TRUE) : b \in CrashBases, op \in CrashOps, i \in 0..9, j \in 0..9, pv \in {"empty", "honest"}}
+\* a result copied / moved onto a position whose instruction cannot resolve its arguments at the victim
+CrashPairs2 ==
+    {[Case(b, op, i, 0, op2, i2, "empty", "same", TRUE) EXCEPT !.j2 = j2] :
+        b \in CrashBases, op \in {"to_sent", "drop_store_entry", "kind_swap"}, i \in 0..5, op2 \in {"copy_over", "relocate"}, i2 \in 0..6, j2 \in 0..6}
+CrashPairs ==
+    {Case(b, op, i, j, op2, i2, "empty", "same", TRUE) :
+        b \in CrashBases, op \in {"to_sent", "kind_swap", "truncate", "drop_store_entry"}, i \in 0..7, j \in {0, 1, 4},
+        op2 \in {"copy_over", "generation", "lore", "par_sizes", "raw_not_json"}, i2 \in 0..7}
+Cases ==
+    IF IOEnv.FAMILY = "crash" THEN (IF Tier = "quick" THEN {c \in CrashSingles : c.i <= 7 /\ c.j <= 5}
+                                    ELSE CrashSingles \cup CrashPairs \cup CrashPairs2)
+    ELSE IF Tier = "quick" THEN Singles ELSE Singles \cup Pairs
 
 \* --------------------------------------------------------------------------- enumeration
 VARIABLES cs, l
@@ -109,6 +127,8 @@ CheckC15 ==
     (l > 1 /\ LastR.applicable /\ LastR.out.died = "") =>
         ((C15a(LastR) /\ C15b(LastR)) \/ PrintT(<<"VIOLATION", "C15", LastR.n, 0>>))
 \* a crash of the victim on tampered input is C01's business; it is reported there
+CheckC01 ==
+    (l > 1 /\ LastR.applicable) => (LastR.out.died = "" \/ PrintT(<<"VIOLATION", "C01", LastR.n, 0>>))
 CheckDecision ==
     (l > 1 /\ LastR.applicable /\ LastR.out.died = "") =>
         LET implPrep == Class(LastR.out.code) = "prep" IN
